@@ -602,3 +602,145 @@ Proof.
   intros A B. repeat split; try lra. intros V.
   apply Qlt_shift_div_r; [exact V|]. lra.
 Qed.
+
+(* ---------- the headline never exceeds the optimum of the first solve ---------- *)
+Definition is_obj (s : slot) : bool := match s with Obj => true | _ => false end.
+Definition no_obj (l : list (Q * var)) : bool := forallb (fun cv => negb (is_obj (fst (snd cv)))) l.
+Definition set_obj (a : assignment) (h : Q) : assignment := fun s m => match s with Obj => h | _ => a s m end.
+
+Lemma eval_set_obj a h l : no_obj l = true -> eval (set_obj a h) l = eval a l.
+Proof.
+  induction l as [|[c [s m]] l IH]; cbn; [reflexivity|]. intros H. apply andb_prop in H. destruct H as [H1 H2].
+  rewrite (IH H2). destruct s; cbn in *; try reflexivity; discriminate.
+Qed.
+
+Lemma sat_set_obj a h r : no_obj (lhs r) = true -> sat a r -> sat (set_obj a h) r.
+Proof. intros N S. unfold sat in *. rewrite (eval_set_obj a h _ N). exact S. Qed.
+
+Definition row_no_obj (r : row) : Prop := no_obj (lhs r) = true.
+
+Lemma no_obj_app l1 l2 : no_obj (l1 ++ l2) = no_obj l1 && no_obj l2.
+Proof. unfold no_obj. apply forallb_app. Qed.
+
+Lemma feed_terms_no_obj i c m : no_obj (feed_terms i c m) = true.
+Proof. unfold feed_terms, opt. destruct (add_sf i), (add_cr i), (add_sw i), (add_cs i), (add_scp i); reflexivity. Qed.
+Lemma biofuel_terms_no_obj i c m : no_obj (biofuel_terms i c m) = true.
+Proof. unfold biofuel_terms, opt. destruct (add_sf i), (add_cr i), (add_sw i), (add_cs i), (add_scp i); reflexivity. Qed.
+Lemma human_terms_no_obj i c m : no_obj (human_terms i c m) = true.
+Proof. unfold human_terms, opt. destruct (add_sf i), (add_cr i), (add_sw i), (add_meat i), (add_cs i), (add_scp i); reflexivity. Qed.
+
+Ltac brk := repeat match goal with
+  | |- context[if ?b then _ else _] => destruct b
+  | |- context[match ?m with O => _ | S _ => _ end] => destruct m
+  end.
+Ltac fin := cbn; repeat (apply Forall_cons || apply Forall_nil); try reflexivity.
+
+Ltac res_step :=
+  match goal with |- Forall _ (if ?b then _ else _) => destruct b; [|apply Forall_nil] end;
+  apply Forall_flat_map; apply Forall_forall; intros m _; (apply Forall_app; split; [|apply Forall_nil]).
+
+Lemma resource_rows_no_obj i : Forall row_no_obj (resource_rows i ToHumans).
+Proof.
+  unfold resource_rows.
+  repeat (apply Forall_app; split); res_step.
+  - unfold rows_seaweed. destruct m; fin.
+  - unfold rows_crops. destruct m; [fin|]. destruct (Nat.eqb (S m) (NM i - 1)); fin.
+  - unfold rows_sf, sf_eaten_row. destruct (store_years i); destruct m; try (destruct (Nat.eqb (S m) (NM i - 1))); 
+      try (destruct (Nat.ltb 12 (S m))); fin.
+  - unfold rows_meat. destruct (store_years i); destruct m; fin.
+  - unfold rows_scp. fin.
+  - unfold rows_cs. fin.
+Qed.
+
+Lemma middle_rows_no_obj i :
+  Forall row_no_obj (flat_map (fun m => rows_feed_biofuel i ToHumans m ++ rows_consumed i ToHumans m ++ rows_caps i ToHumans m) (months i)).
+Proof.
+  apply Forall_flat_map; apply Forall_forall; intros m _.
+  repeat (apply Forall_app; split).
+  - unfold rows_feed_biofuel. destruct (has_nonhuman i); [|apply Forall_nil].
+    repeat apply Forall_cons; try apply Forall_nil; unfold row_no_obj; cbn [lhs mk];
+      [apply feed_terms_no_obj|apply biofuel_terms_no_obj].
+  - cbn. apply Forall_cons; [|apply Forall_nil]. unfold row_no_obj; cbn [lhs mk].
+    change (no_obj (t 1 Consumed m :: human_terms i (- (100 / need i)) m)) with (true && no_obj (human_terms i (- (100 / need i)) m)).
+    now rewrite human_terms_no_obj.
+  - destruct (add_sw i); [|apply Forall_nil]. unfold rows_caps_food. fin.
+  - destruct (add_scp i); [|apply Forall_nil]. unfold rows_caps_food. fin.
+  - destruct (add_cs i); [|apply Forall_nil]. unfold rows_caps_food. fin.
+Qed.
+
+Lemma feasible_set_obj i a h : Feasible i ToHumans a -> 0 <= h ->
+  (forall m, (m < NM i)%nat -> h <= a Consumed m) -> Feasible i ToHumans (set_obj a h).
+Proof.
+  intros [NN F] H0 Hle. split.
+  - intros s m. destruct s; cbn; try apply NN. exact H0.
+  - unfold build in *. apply Forall_app in F. destruct F as [F1 F]. apply Forall_app in F. destruct F as [F2 F3].
+    apply Forall_app; split; [|apply Forall_app; split].
+    + pose proof (resource_rows_no_obj i) as N. rewrite Forall_forall in *. intros r Hr. apply sat_set_obj; auto. apply N; exact Hr.
+    + pose proof (middle_rows_no_obj i) as N. rewrite Forall_forall in *. intros r Hr. apply sat_set_obj; auto. apply N; exact Hr.
+    + cbn. apply Forall_forall. intros r Hr. apply in_map_iff in Hr. destruct Hr as (m & <- & Hm).
+      unfold months in Hm. apply in_seq in Hm. unfold sat; cbn. specialize (Hle m ltac:(lia)). lra.
+Qed.
+
+(* v is the optimum of the first solve: no feasible point has a larger objective value *)
+Definition first_optimum (i : lp_in) (v : Q) : Prop := forall a', Feasible i ToHumans a' -> a' Obj 0%nat <= v.
+
+Lemma headline_le_optimum i c a v e ii : lp_settings_ok i c -> Feasible i ToHumans a ->
+  report (report_in i c a) = Ok (e, ii) -> first_optimum i v -> headline ii <= v.
+Proof.
+  intros H F R O.
+  destruct (report_lp_headline i c a e ii H (feasible_consumed_rows i a F) R) as [Hle (m0 & Hm0 & E0)].
+  assert (H0 : 0 <= headline ii) by (rewrite E0; apply (proj1 F)).
+  specialize (O (set_obj a (headline ii)) (feasible_set_obj i a (headline ii) F H0 Hle)). exact O.
+Qed.
+
+(* ---------- the Extractor's own add-up assertions can never fire ---------- *)
+Lemma zip_map {A} f (g h : A -> Q) L : zip_with f (map g L) (map h L) = map (fun m => f (g m) (h m)) L.
+Proof. induction L; cbn; [reflexivity|]. now rewrite IHL. Qed.
+
+Lemma forallb_map_in {A} (p : Q -> bool) (F : A -> Q) L :
+  (forall m, In m L -> p (F m) = true) -> forallb p (map F L) = true.
+Proof.
+  intros H. apply forallb_forall. intros d Hd. apply in_map_iff in Hd. destruct Hd as (m & <- & Hm). auto.
+Qed.
+
+Lemma small_ok d : d == 0 -> Qle_bool (Qabs'' d) (1 # 1000) = true.
+Proof.
+  intros E. apply Qle_bool_iff. unfold Qabs''. destruct (Qle_bool 0 d); rewrite E; lra.
+Qed.
+
+Lemma rhe_comp x y : x == y -> rhe x = rhe y.
+Proof. intros E. unfold rhe. rewrite (Qfloor_comp _ _ E). now rewrite E. Qed.
+
+Lemma round0_ok d : d == 0 -> Qeq_bool (round_dec 3 d) 0 = true.
+Proof.
+  intros E. apply Qeq_bool_iff. unfold round_dec.
+  assert (E' : d * pow10 3 == 0 * pow10 3) by now rewrite E.
+  rewrite (rhe_comp _ _ E'). reflexivity.
+Qed.
+
+Lemma forallb_repeat (p : Q -> bool) x k : p x = true -> forallb p (repeat x k) = true.
+Proof. intros H. induction k; cbn; [reflexivity|]. now rewrite H, IHk. Qed.
+
+Lemma zip_repeat f x y k : zip_with f (repeat x k) (repeat y k) = repeat (f x y) k.
+Proof. induction k; cbn; [reflexivity|]. now rewrite IHk. Qed.
+
+Lemma extract_never_assert x : extract x <> Rejected AssertRejected.
+Proof.
+  unfold extract.
+  destruct (negb (same_len _ _ && same_len _ _)); [discriminate|].
+  set (ph := lsub (lsub (r_crops_prod x) (create_food_kcals (r_n x) (r_km x) (v_cr_f x))) (create_food_kcals (r_n x) (r_km x) (v_cr_b x))).
+  destruct (v_cr_h x) as [k|vals]; cbn [is_modelled negb andb varlen].
+  - destruct (Qeq_bool (lsum ph) 0); [|discriminate].
+    unfold create_food_kcals, to_monthly_list, sources_add_up, growing_production_ok, all_b, lsub, ladd.
+    rewrite !zip_repeat. rewrite !forallb_repeat by reflexivity. cbn. discriminate.
+  - unfold split_series. rewrite !map_map.
+    unfold create_food_kcals, to_monthly_list, sources_add_up, growing_production_ok, all_b, lsub, ladd.
+    rewrite !zip_map.
+    assert (IN : forall m, In m (seq 0 (r_n x)) -> nthq (map (var_at (Vars vals)) (seq 0 (r_n x))) m = nthq vals m).
+    { intros m Hm. apply in_seq in Hm. unfold nthq. rewrite nth_map_seq by lia. reflexivity. }
+    rewrite forallb_map_in.
+    2:{ intros m Hm. apply small_ok. rewrite (IN m Hm). rewrite split_month_adds_up. ring. }
+    rewrite forallb_map_in.
+    2:{ intros m Hm. apply round0_ok. rewrite (IN m Hm). rewrite split_month_adds_up. ring. }
+    cbn. discriminate.
+Qed.
